@@ -437,9 +437,20 @@ def class_body_rule(repo: Repo, rep: Report, rid: str) -> None:
             pm = parent_map(fi.node)
 
             def unconditional(node: ast.AST) -> bool:
+                from ..util import resolve_local as _rl
+
                 p_ = pm.get(node)
                 while p_ is not None and p_ is not fi.node:
-                    if isinstance(p_, (ast.For, ast.While, ast.If, ast.ListComp, ast.GeneratorExp, ast.comprehension, ast.Try)):
+                    if isinstance(p_, ast.For):
+                        it = _rl(fi.node, p_.iter) if isinstance(p_.iter, ast.Name) else p_.iter
+                        if not (isinstance(it, (ast.List, ast.Tuple)) and it.elts):
+                            return False  # a loop over something that may be empty
+                    elif isinstance(p_, (ast.ListComp, ast.GeneratorExp)):
+                        g_ = p_.generators
+                        it = _rl(fi.node, g_[0].iter) if isinstance(g_[0].iter, ast.Name) else g_[0].iter
+                        if not (len(g_) == 1 and not g_[0].ifs and isinstance(it, (ast.List, ast.Tuple)) and it.elts):
+                            return False  # a comprehension over something that may be empty / filtered
+                    elif isinstance(p_, (ast.While, ast.If, ast.comprehension, ast.Try)):
                         return False
                     p_ = pm.get(p_)
                 return True
@@ -451,6 +462,17 @@ def class_body_rule(repo: Repo, rep: Report, rid: str) -> None:
                 return bool(t_) and t_.startswith("    ") and t_.strip() != ""
 
             always = [x for x in walk_body(fi.node.body) if is_body_line(x) and x is not h and unconditional(x)]
+            # ... or a top-level append / extend of something that is not an iteration over the definition: a list display, or the lines a helper returns
+            from ..util import resolve_local
+
+            for st_ in fi.node.body:
+                c_ = st_.value if isinstance(st_, ast.Expr) else None
+                if isinstance(c_, ast.Call) and isinstance(c_.func, ast.Attribute) and c_.func.attr in ("append", "extend") and c_.args:
+                    arg = resolve_local(fi.node, c_.args[0]) if isinstance(c_.args[0], ast.Name) else c_.args[0]
+                    if isinstance(arg, (ast.List, ast.Tuple)) and any(is_body_line(e) or (isinstance(e, ast.Call)) for e in arg.elts):
+                        always.append(arg)
+                    elif isinstance(arg, ast.Call) and isinstance(arg.func, ast.Name) and arg.func.id in mod.functions and arg.func.id != "generate_typehint":
+                        always.append(arg)
             fallback = [x for x in walk_body(fi.node.body) if isinstance(x, ast.If) and isinstance(x.test, ast.UnaryOp) and isinstance(x.test.op, ast.Not)
                         and any(isinstance(c, (ast.Constant, ast.JoinedStr)) and ("..." in norm(c) or "pass" in norm(c)) for s_ in x.body for c in ast.walk(s_))]
             rep.check(bool(always) or bool(fallback), rid, f"{fi.key}:class body", "an unconditional body line or an empty-case fallback exists",
